@@ -72,6 +72,16 @@ def models(name):
         "nonhermitian_drive": dict(modes=[a], H0=w * Na + al * Na * Na, H1=a / 2 + 3 * Dagger(a) / 2 + a * a, nonhermitian=True),
         "nonhermitian_jc": dict(modes=[a], H0=sympy.Matrix([[w * Na, 0], [0, w * Na + D]]), H1=sympy.Matrix([[0, 2 * a], [Dagger(a), a]]), nonhermitian=True),
         "nonhermitian_fermions": dict(modes=[c, d], H0=ec * Dagger(c) * c + ed * Dagger(d) * d, H1=2 * Dagger(c) * d + Dagger(d) * c + 3 * c * d, nonhermitian=True),
+        # a mode that occurs in the perturbation only (its number operator is absent from H_0)
+        "spectator_boson": dict(modes=[a, b], H0=w * Na, H1=(a + Dagger(a)) * Dagger(b) ** 2 * b**2 + (a + Dagger(a)) * Nb),
+        "spectator_fermion": dict(modes=[a, c], H0=w * Na + al * Na * Na, H1=(a + Dagger(a)) * Dagger(c) * c + a * a + Dagger(a) * Dagger(a)),
+        "resonant_drives": dict(modes=[a, b], H0=w * Na + w * Nb, H1=a + Dagger(a) + b + Dagger(b)),
+        "displaced_no_symbols": dict(modes=[a], H0=Na, H1=a + Dagger(a), no_symbols=True),
+        "spin_no_symbols": dict(modes=[sm], H0=pauli.SigmaZ("s"), H1=pauli.SigmaX("s"), no_symbols=True),
+        "matrix_no_symbols": dict(modes=[a], H0=sympy.Matrix([[Na, 0], [0, Na + sympy.Rational(5, 2)]]), H1=sympy.Matrix([[0, a], [Dagger(a), a + Dagger(a)]]), blocks=[0, 1], no_symbols=True),
+        "spin_y_numeric": dict(modes=[sm], H0=pauli.SigmaZ("s"), H1=pauli.SigmaY("s")),
+        "boson_spin_numeric": dict(modes=[a, sm], H0=Na + sympy.Rational(5, 6) * pauli.SigmaZ("s"), H1=sympy.I * (a - Dagger(a)) + pauli.SigmaX("s")),
+        "spin_y_only": dict(modes=[sm], H0=wq * pauli.SigmaZ("s"), H1=pauli.SigmaY("s")),
         "matrix_1block": dict(modes=[a], H0=sympy.Matrix([[w * Na, 0], [0, w * Na + D]]), H1=sympy.Matrix([[0, a], [Dagger(a), a + Dagger(a)]])),
     }
     if name.startswith(("random:", "randomfree:")):
@@ -141,6 +151,10 @@ def _run_library(m, max_order):
         kw["fully_diagonalize"] = {0: m["fd"]} if m.get("blocks") is not None else m["fd"]
     if m.get("nonhermitian"):
         kw["hermitian"] = False
+    if m.get("no_symbols"):
+        # a single expression / matrix without the `symbols` argument: the only free symbol that is not an operator label is g
+        Ht, U, Ud = block_diagonalize(H0 + g * H1, **kw)
+        return Ht, U, Ud
     Ht, U, Ud = block_diagonalize({sympy.S.One: H0, g: H1}, symbols=[g], **kw)
     return Ht, U, Ud
 
@@ -233,6 +247,10 @@ def c07(cfg):
             layout = [m["H0"].shape[0]]
         N = sum(layout)
         lib = {name: [_elements(S, n, layout, scalar) for n in range(max_order + 1)] for name, S in (("Ht", Ht), ("U", U), ("Ud", Ud))}
+        if m.get("no_symbols"):
+            # expression input: every returned element carries its monomial g**n; set g = 1 (public substitution)
+            gsym = sympy.Symbol("g", real=True)
+            lib = {name: [[[0 if x == 0 else _expr_of(x).subs(gsym, 1) for x in row] for row in M] for M in mats] for name, mats in lib.items()}
     except Exception as e:
         from .herm import library_exception_info
 
@@ -492,7 +510,9 @@ def configs(tier):
              ("two_spins", 3), ("jc_mask_counter_rotating", 2), ("two_bosons_mask", 2),
              ("boson_complex_drive", 2), ("fermion_complex_hop", 3), ("rabi_y", 2), ("matrix_complex", 2), ("spin_boson_fermion", 2),
              ("matrix_3x3_12", 2), ("matrix_3x3_21", 2), ("matrix_zero_block_first", 2), ("matrix_zero_block_last", 2),
-             ("nonhermitian_drive", 2), ("nonhermitian_jc", 2), ("nonhermitian_fermions", 2)]
+             ("nonhermitian_drive", 2), ("nonhermitian_jc", 2), ("nonhermitian_fermions", 2),
+             ("spectator_boson", 2), ("spectator_fermion", 2), ("resonant_drives", 3), ("spin_y_only", 3), ("spin_y_numeric", 3), ("boson_spin_numeric", 3),
+             ("displaced_no_symbols", 3), ("spin_no_symbols", 3), ("matrix_no_symbols", 2)]
     thorough = [("anharmonic3", 4), ("anharmonic4", 3), ("displaced", 4), ("kerr_drive", 3), ("two_bosons", 3), ("rabi", 4), ("jc_detuned", 3),
                 ("fermion_hop2", 4), ("fermion_pair3", 3), ("fermion_interaction", 3), ("holstein", 3), ("ladder_drive", 3),
                 ("mask_two_photon", 3), ("mask_one_photon", 2), ("matrix_2x2", 3), ("matrix_1block", 3),
@@ -500,7 +520,9 @@ def configs(tier):
                 ("two_spins", 4), ("jc_mask_counter_rotating", 3), ("two_bosons_mask", 3),
                 ("boson_complex_drive", 2), ("boson_complex_harmonic", 3), ("fermion_complex_hop", 4), ("rabi_y", 3), ("matrix_complex", 3), ("spin_boson_fermion", 2),  # three modes of mixed statistics: order 3 exceeds 1500 s (probe)
                 ("matrix_3x3_12", 3), ("matrix_3x3_21", 3), ("matrix_zero_block_first", 3), ("matrix_zero_block_last", 2),
-                ("nonhermitian_drive", 3), ("nonhermitian_jc", 3), ("nonhermitian_fermions", 3)]
+                ("nonhermitian_drive", 3), ("nonhermitian_jc", 3), ("nonhermitian_fermions", 3),
+                ("spectator_boson", 3), ("spectator_fermion", 3), ("resonant_drives", 4), ("spin_y_only", 4), ("spin_y_numeric", 4), ("boson_spin_numeric", 3),
+                ("displaced_no_symbols", 4), ("spin_no_symbols", 4), ("matrix_no_symbols", 3)]
     for name, mo in quick if tier == "quick" else thorough:
         cfgs.append(dict(model=name, max_order=mo, _timeout_s=300 if tier == "quick" else 1500))
     # seeded random polynomial models (fixed seeds per tier: the encoding is regenerated, the set is stated)
